@@ -490,7 +490,7 @@ func minInt(a, b int) int {
 
 func main() {
 	r := vk.Start("C29")
-	r.Rule("sequential: 3 shards out of {0,1,2,3,META} x nonces 0..6 x 2-3 hashes per (shard,nonce) + 3 roaming hashes offered under changing coordinates; MaxHeadersPerShard 1..30, NumElementsToRemoveOnEviction 1..4; 40..140/260 ops (AddHeader 52%, RemoveHeaderByHash, RemoveHeaderByNonceAndShardId, GetHeaderByHash, GetHeadersByNonceAndShardId, lookups on never-added shard ids, nil/empty arguments, MaxSize, Clear); after EVERY op the whole pool is read back (by hash, by shard+nonce, Nonces, GetNumHeaders, Len), the index invariants are checked and the content is compared with a reference model (exact while below capacity; an add at capacity may evict whole nonces of that shard only, then the reference adopts the observed shard). shape = (limits, hashes per nonce, evictions bucket, Clear seen, META used). concurrent/history: 4-8 clients, eviction-free pool, all calls stamped by one atomic counter, porcupine partitioned by shard. concurrent/stress: 8-16 goroutines, all API methods incl. Nonces/GetNumHeaders on shard ids never added, small limits (evictions), two op mixes (balanced / read-lock heavy), invariants re-checked at the quiescent end; race reports inside package headersCache are violations")
+	r.Rule("sequential: 3 shards out of {0,1,2,3,META} x nonces 0..6 x 2-3 hashes per (shard,nonce) + 3 roaming hashes offered under changing coordinates; MaxHeadersPerShard 1..30, NumElementsToRemoveOnEviction 1..4; 40..140/260 ops (AddHeader 52%, RemoveHeaderByHash, RemoveHeaderByNonceAndShardId, GetHeaderByHash, GetHeadersByNonceAndShardId, lookups on never-added shard ids, nil/empty arguments, MaxSize, Clear); after EVERY op the whole pool is read back (by hash, by shard+nonce, Nonces, GetNumHeaders, Len), the index invariants are checked and the content is compared with a reference model (exact while below capacity; an add at capacity may evict whole nonces of that shard only, then the reference adopts the observed shard). shape = (limits, hashes per nonce, evictions bucket, Clear seen, META used). concurrent/history: 4-8 clients, eviction-free pool, all calls stamped by one atomic counter, porcupine partitioned by shard. concurrent/stress: 8-16 goroutines, all API methods incl. Nonces/GetNumHeaders on shard ids never added, small limits (evictions), two op mixes (balanced / read-lock heavy), invariants re-checked at the quiescent end. concurrent/hot-cell: one shard, 1-2 nonces x 2-4 hashes, eviction-free or limit 2..5; 4..10/16 rounds, each round re-populates every cell, then releases 3-8 goroutines at once doing 1-3 ops of {AddHeader, RemoveHeaderByNonceAndShardId, RemoveHeaderByHash, GetNumHeaders} on those cells; a count read during the round is never negative, the whole pool is read back and the index invariants checked at the quiescent end of every round; race reports inside package headersCache are violations")
 	r.Assume("eviction order (timestamps) is not modelled: after an add at capacity the reference adopts the observed content of that shard after checking it is a sub-set of the previous content plus the new header", "a bound on the number of headers per shard is not part of the property: recorded in maxima only", "race detector (-race) and porcupine v1.3.0 are trusted", "a runtime fatal error (concurrent map writes) kills the process: check.sh reports it as a violation")
 	r.MinShapes(40)
 
@@ -498,6 +498,7 @@ func main() {
 	nHist := r.N(400, 3000)
 	nGentle := r.N(64, 300)
 	nStress := r.N(32, 200)
+	nHot := r.N(400, 3000)
 	base := nSeq + nHist + nGentle
 	t0 := time.Now()
 	r.Parallel(base, func(c *vk.Case) {
@@ -506,7 +507,7 @@ func main() {
 			sequentialCase(r, c)
 		case c.Idx < nSeq+nHist:
 			historyCase(r, c)
-		default:
+		case c.Idx < base:
 			gentleCase(r, c)
 		}
 	})
@@ -546,11 +547,17 @@ func main() {
 		r.Extra("heavy_stress", "skipped: the gentle phase already produced race reports inside headersCache")
 	} else {
 		r.ParallelW(base+nStress, 4, func(c *vk.Case) {
-			if c.Idx >= base {
+			if c.Idx >= base && c.Idx < base+nStress {
 				stressCase(r, c)
 			}
 		})
 		collect(base)
+		r.Parallel(base+nStress+nHot, func(c *vk.Case) {
+			if c.Idx >= base+nStress {
+				hotCellCase(r, c)
+			}
+		})
+		collect(base + nStress)
 		r.Extra("heavy_stress", "run")
 		r.Extra("phase2_seconds", time.Since(t1).Seconds())
 	}
